@@ -106,7 +106,7 @@ Whole(b, need) == IF b = <<>> THEN need = 0
 Init == stage = 0 /\ text = <<>> /\ cuts = {} /\ prm = [min |-> -1, max |-> -1, align |-> "L", fill |-> 1] /\ script = <<1>>
 GrowText == stage = 0 /\ Len(text) < MaxChars /\ \E c \in Classes : text' = Append(text, c) /\ UNCHANGED <<stage, cuts, prm, script>>
 ChooseCuts == stage = 0 /\ stage' = 1 /\ \E S \in SUBSET (1..(Len(text) - 1)) : cuts' = S /\ UNCHANGED <<text, prm, script>>
-ChoosePrm == stage = 1 /\ stage' = 2 /\ \E mn \in Widths, mx \in Widths, al \in {"L", "R"}, f \in {1, 3} :
+ChoosePrm == stage = 1 /\ stage' = 2 /\ \E mn \in Widths, mx \in Widths, al \in {"L", "R"}, f \in {1, 2, 3} :
                  /\ (mn < 0 => al = "L" /\ f = 1)
                  /\ prm' = [min |-> mn, max |-> mx, align |-> al, fill |-> f]
              /\ UNCHANGED <<text, cuts, script>>
